@@ -226,6 +226,10 @@ Definition get_line_number (tbl : list (Z * Z)) (pos : Z) : Z :=
 (* ------------------------------------------------------------------------------------------------ *)
 (* READ and RESTORE *)
 
+(* target of a READ: kind = tgt mod 4 (0 string, 1 integer, 2 single, 3 double); tgt / 4 distinguishes the variables
+   and array elements of one kind for the assignment oracle *)
+Definition is_str (tgt : Z) : bool := tgt mod 4 =? 0.
+
 Inductive val := VStr (s : list Z) | VNum (w : list Z).   (* VNum w: the number values.from_repr(w) *)
 
 Inductive outcome :=
@@ -250,7 +254,7 @@ Section Oracles.
     end.
 
   (* one variable of a READ statement.  p = program byte code, cur = tell() of the READ statement,
-     dp = Interpreter.data_pos, tgt = 0 for a string variable, else a numeric variable *)
+     dp = Interpreter.data_pos, is_str tgt for a string variable, else a numeric variable *)
   Definition read_one (p : list Z) (cur dp : Z) (tgt : Z) : outcome :=
     let s := seek p dp in
     match (if at_end s then find_data (S (length s)) (-1) s else Ok (-1, s)) with
@@ -259,7 +263,7 @@ Section Oracles.
         | c :: r =>
             if (c =? data_tk_DATA) || (c =? COMMA) then
               let r1 := skip_blank r in
-              if tgt =? 0 then
+              if is_str tgt then
                 match str_slot r1 with
                 | (Some v, s2) => lift_unit (setvar tgt (VStr v)) (cur - 1) (Done (VStr v) (pos_of p s2))
                 | (None, s2) => Fail data_STX (pos_of p s2 - 1) None
@@ -292,6 +296,20 @@ Section Oracles.
     end.
 End Oracles.
 
+(* trap_error: outside run mode (direct mode) an error has no position (e.pos = -1) *)
+Definition direct (run : bool) (o : outcome) : outcome :=
+  if run then o else match o with Fail e _ part => Fail e (-1) part | _ => o end.
+
+(* the READ statement.  run = Interpreter.run_mode, prot = Program.protected *)
+Definition read_stmt (numok : list Z -> res unit) (setvar : Z -> val -> res unit) (run prot : bool)
+           (p : list Z) (cur dp : Z) (tgts : list Z) : list outcome * Z :=
+  if prot && negb run then ([Fail 5 (-1) None], dp)
+  else let (os, dp') := read_vars numok setvar p cur dp tgts in (map (direct run) os, dp').
+
+(* ERL for an error position (Interpreter.erl_) *)
+Definition erl (tbl : list (Z * Z)) (pos : Z) : Z :=
+  if pos =? 0 then 0 else if pos =? -1 then 65535 else get_line_number tbl pos.
+
 (* RESTORE [n]: Program.line_numbers[n] or Undefined line number *)
 Definition restore (tbl : list (Z * Z)) (arg : option Z) : res Z :=
   match arg with
@@ -308,6 +326,7 @@ Record item := {
   it_str : list Z;        (* the value a string variable gets *)
   it_word : list Z;       (* the text a numeric variable is converted from (values.from_repr) *)
   it_numeric : bool;      (* only blanks between that text and the end of the entry *)
+  it_after : list Z;      (* the stream behind that text (where a conversion error is reported) *)
   it_rest : list Z        (* the stream where the numeric reading stops (the offending character if not numeric) *)
 }.
 
@@ -326,11 +345,12 @@ Fixpoint stmt_items (fuel : nat) (ln : Z) (r : list Z) : list item * (list Z + e
   | S f =>
       let r1 := skip_blank r in
       match num_slot r1 with
-      | (w, _, s3) =>
+      | (w, s2n, s3) =>
           match str_slot r1 with
           | (None, s4) => ([], inr (BadEntry ln w s3 s4))
           | (Some v, s2) =>
-              let it := {| it_line := ln; it_str := v; it_word := w; it_numeric := at_sep s3; it_rest := s3 |} in
+              let it := {| it_line := ln; it_str := v; it_word := w; it_numeric := at_sep s3;
+                           it_after := s2n; it_rest := s3 |} in
               match s2 with
               | c :: r' =>
                   if c =? COMMA then let (its, e) := stmt_items f ln r' in (it :: its, e)
@@ -366,8 +386,8 @@ Definition data_ahead (p : list Z) (dp ln : Z) : list item * ending :=
   items_at (S (length (seek p dp))) ln (seek p dp).
 
 (* what a READ into a variable of kind tgt gets from an entry *)
-Definition value_for (tgt : Z) (it : item) : val := if tgt =? 0 then VStr (it_str it) else VNum (it_word it).
-Definition readable (tgt : Z) (it : item) : bool := (tgt =? 0) || it_numeric it.
+Definition value_for (tgt : Z) (it : item) : val := if is_str tgt then VStr (it_str it) else VNum (it_word it).
+Definition readable (tgt : Z) (it : item) : bool := is_str tgt || it_numeric it.
 Definition outcome_value (o : outcome) : option val := match o with Done v _ => Some v | _ => None end.
 
 (* ------------------------------------------------------------------------------------------------ *)
@@ -384,7 +404,9 @@ Inductive tail := TNone | TRem (text : list Z) | TOpen (text : list Z).   (* REM
 Inductive entry :=
 | EPlain (pre w post : list Z)             (* blanks text blanks *)
 | EQuoted (pre body post : list Z)         (* blanks QUOTE body QUOTE blanks *)
-| EMixed (pre w body post : list Z).       (* blanks text QUOTE body QUOTE blanks *)
+| EMixed (pre w body post : list Z)        (* blanks text QUOTE body QUOTE blanks *)
+| EOpen (pre body : list Z)                (* blanks QUOTE body   up to the end of the line *)
+| EMixedOpen (pre w body : list Z).        (* blanks text QUOTE body   up to the end of the line *)
 
 Inductive stmt :=
 | SOther (ls : list lexeme) (t : tail)
@@ -402,7 +424,11 @@ Definition enc_entry (e : entry) : list Z :=
   | EPlain pre w post => pre ++ w ++ post
   | EQuoted pre b post => pre ++ QUOTE :: b ++ QUOTE :: post
   | EMixed pre w b post => pre ++ w ++ QUOTE :: b ++ QUOTE :: post
+  | EOpen pre b => pre ++ QUOTE :: b
+  | EMixedOpen pre w b => pre ++ w ++ QUOTE :: b
   end.
+Definition entry_open (e : entry) : bool :=
+  match e with EOpen _ _ | EMixedOpen _ _ _ => true | _ => false end.
 Fixpoint join (sep : Z) (l : list (list Z)) : list Z :=
   match l with
   | [] => []
@@ -450,6 +476,17 @@ Definition entry_ok (e : entry) : bool :=
   | EMixed pre w b post =>
       all_blank pre && all_blank post && no_special w && str_body_ok b
       && match w with [] => false | c :: _ => negb (is_blank c) end
+  | EOpen pre b => all_blank pre && str_body_ok b
+  | EMixedOpen pre w b =>
+      all_blank pre && no_special w && str_body_ok b
+      && match w with [] => false | c :: _ => negb (is_blank c) end
+  end.
+(* only the last entry of the last statement of a line can have an unclosed quote *)
+Fixpoint entries_ok (last : bool) (es : list entry) : bool :=
+  match es with
+  | [] => false
+  | [e] => entry_ok e && (negb (entry_open e) || last)
+  | e :: r => entry_ok e && negb (entry_open e) && entries_ok last r
   end.
 (* a statement that is not DATA does not start (after blanks) with the DATA token; only the last statement of a line
    may end in REM or in an unclosed string; DATA entries hold no NUL *)
@@ -458,7 +495,7 @@ Definition stmt_ok (last : bool) (st : stmt) : bool :=
   | SOther ls t =>
       forallb lex_ok ls && tail_ok t && (match t with TNone => true | _ => last end)
       && match skip_blank (enc_stmt st) with c :: _ => negb (c =? data_tk_DATA) | [] => true end
-  | SData sp es => all_blank sp && forallb entry_ok es && match es with [] => false | _ => true end
+  | SData sp es => all_blank sp && entries_ok last es
   end.
 Fixpoint stmts_ok (sts : list stmt) : bool :=
   match sts with
@@ -475,6 +512,8 @@ Definition entry_value (e : entry) : list Z :=
   | EPlain _ w _ => w
   | EQuoted _ b _ => b
   | EMixed _ w b _ => w ++ QUOTE :: b ++ [QUOTE]
+  | EOpen _ b => b
+  | EMixedOpen _ w b => w ++ QUOTE :: b
   end.
 Definition stmt_entries (st : stmt) : list entry := match st with SData _ es => es | SOther _ _ => [] end.
 (* the DATA entries of a program with the number of their line, in line and statement order *)
@@ -535,29 +574,29 @@ Definition enc_outcome (tbl : list (Z * Z)) (o : outcome) : list Z :=
   match o with
   | Done v dp' => 0 :: enc_val v ++ [dp']
   | Fail e epos partial =>
-      1 :: e :: get_line_number tbl epos :: match partial with Some v => 1 :: enc_val v | None => [0] end
+      1 :: e :: erl tbl epos :: match partial with Some v => 1 :: enc_val v | None => [0] end
   | HostExc x => [2; x]
   | NoFuel => [3]
   end.
 
 Inductive op :=
-| OpRead (cur : Z) (tgts : list Z)
-| OpRestore (cur : Z) (arg : option Z)
+| OpRead (run : bool) (cur : Z) (tgts : list Z)
+| OpRestore (run : bool) (cur : Z) (arg : option Z)
 | OpRun.
 
-Fixpoint run_ops (numfail setfail : list (Z * list Z * Z * Z)) (p : list Z) (tbl : list (Z * Z)) (dp : Z)
-         (ops : list op) : list Z :=
+Fixpoint run_ops (prot : bool) (numfail setfail : list (Z * list Z * Z * Z)) (p : list Z) (tbl : list (Z * Z))
+         (dp : Z) (ops : list op) : list Z :=
   match ops with
   | [] => []
-  | OpRead cur tgts :: r =>
-      let (os, dp') := read_vars (tbl_oracle numfail 0) (fun t v => tbl_oracle setfail t (val_bytes v))
-                                 p cur dp tgts in
-      (zlen os :: flat_map (enc_outcome tbl) os) ++ [dp'] ++ run_ops numfail setfail p tbl dp' r
-  | OpRestore cur arg :: r =>
+  | OpRead run cur tgts :: r =>
+      let (os, dp') := read_stmt (tbl_oracle numfail 0) (fun t v => tbl_oracle setfail t (val_bytes v))
+                                 run prot p cur dp tgts in
+      (zlen os :: flat_map (enc_outcome tbl) os) ++ [dp'] ++ run_ops prot numfail setfail p tbl dp' r
+  | OpRestore run cur arg :: r =>
       match restore tbl arg with
-      | Ok d => [0; d] ++ run_ops numfail setfail p tbl d r
-      | Err e => [1; e; get_line_number tbl (cur - 1); dp] ++ run_ops numfail setfail p tbl dp r
+      | Ok d => [0; d] ++ run_ops prot numfail setfail p tbl d r
+      | Err e => [1; e; erl tbl (if run then cur - 1 else -1); dp] ++ run_ops prot numfail setfail p tbl dp r
       | _ => [3]
       end
-  | OpRun :: r => [0; 0] ++ run_ops numfail setfail p tbl 0 r
+  | OpRun :: r => [0; 0] ++ run_ops prot numfail setfail p tbl 0 r
   end.
